@@ -535,7 +535,7 @@ Proof.
       { apply (@clone_all_spec (b_kids b) ((k, VPtr a) :: E) h I).
         intros x Hx. apply in_or_app. right. eapply kids_in_heap_refs; eauto. }
       intros _ h1 [I1 [T1 R1]]. cbv beta.
-      apply hspec_bind. eapply hspec_weaken; [apply (@alloc_spec ((k, VPtr a) :: E) h1 k (b_tag b) (b_shape b) (b_kids b) I1)|].
+      apply hspec_bind. eapply hspec_weaken; [apply (@alloc_spec ((k, VPtr a) :: E) h1 k (b_tag b) (copy_shape (b_shape b)) (b_kids b) I1)|].
       intros tv' h2 [I2 [T2 [R2 [Hs [Hn Hkeep]]]]]. cbv beta.
       (* the old block still has another handle: the drop only decrements *)
       destruct (T1 _ _ Hb) as [b1 [Hb1 _]].
@@ -561,7 +561,7 @@ Proof.
       rewrite (typed_kind_alloc Ht Hb) in Hs. subst tv'. split; [|reflexivity].
       unfold unique_in. cbn [snd].
       assert (length h1 <> a) as Hne by (apply nth_error_Some_lt in Hb1; lia).
-      exists (mkB (b_tag b) 1 (b_shape b) (b_kids b) false).
+      exists (mkB (b_tag b) 1 (copy_shape (b_shape b)) (b_kids b) false).
       rewrite nth_error_upd_neq by congruence. auto.
 Qed.
 
@@ -577,7 +577,7 @@ Proof.
     { apply (@clone_all_spec (b_kids b) E h I).
       intros x Hx. apply in_or_app. right. eapply kids_in_heap_refs; eauto. }
     intros _ h1 [I1 [T1 R1]]. cbv beta.
-    eapply hspec_weaken; [apply (@alloc_spec E h1 k (b_tag b) (b_shape b) (b_kids b) I1)|].
+    eapply hspec_weaken; [apply (@alloc_spec E h1 k (b_tag b) (copy_shape (b_shape b)) (b_kids b) I1)|].
     intros tv' h2 [I2 [T2 _]]. split; [exact I2|eapply tags_stable_trans; eauto].
 Qed.
 
@@ -1794,3 +1794,10 @@ Proof.
   apply (@thunk_data_spec (KThunk, v) (root_vals (roots st) ++ []) (heap st) S); [|reflexivity].
   rewrite app_nil_r. exact HI.
 Qed.
+
+(* a copy of a thunk's data (make_unique / strong_clone of a thunk block, saturate of a shared
+   standard thunk, map) is never born black-holed or locked, and a copy of a copy is the same *)
+Lemma copy_shape_fresh : forall sh,
+  get_state (copy_shape sh) <> Blackholed /\ get_locked (copy_shape sh) = false /\
+  copy_shape (copy_shape sh) = copy_shape sh.
+Proof. intros [d|[] l|[] l c]; simpl; repeat split; congruence. Qed.
